@@ -460,9 +460,22 @@ def G_tuplelen(ctx, prog, lem, site):
     ks = const_set_of(fn, t['args'][1])
     if not ks or not all(isinstance(k, int) and 0 <= k < n for k in ks):
         return None
-    if not no_mut_use_between(fn, v, cont, site['block'], allow_blocks=(site['block'],)):
+    # earlier element removals on the way shrink the vector by one each (acyclic region: each such block runs at most once)
+    region = between(fn, cont, site['block'], ())
+    shrink = []
+    for b in resizing_sites(fn, v):
+        if b not in region or b == site['block']:
+            continue
+        tb = fn.term(b)
+        if tb['k'] == 'call' and not tb['callee'].get('local') and tb['callee']['name'] in ('swap_remove', 'pop', 'remove') and 'vec::Vec' in tb['callee']['def'] \
+                and not any(b in fn.reachable_from(s_) for s_ in fn.succ(b) if not fn.blocks[s_]['cleanup']):
+            shrink.append(b)
+        else:
+            return None
+    m = len(shrink)
+    if not all(k < n - m for k in ks):
         return None
-    return 'swap_remove index in %s, all < %d: vector is the Continue payload of %s, not mutated before' % (sorted(ks), n, desc)
+    return 'swap_remove index in %s, all < %d: vector is the Continue payload of %s with %d earlier removal(s), not otherwise mutated before' % (sorted(ks), n - m, desc, m)
 
 
 def G_nonempty(ctx, prog, lem, site):
@@ -843,6 +856,128 @@ def G_fnptr(ctx, prog, lem, site):
     return None
 
 
+def _fn_values(prog, fn, op, depth=3, seen=None):
+    """the set of values a fn-pointer operand can hold: list of fn-item def paths, or None when some source is not a function item.
+    Followed: copies, ReifyFnPointer casts of function items, a fn-pointer parameter of a crate-private function (to the arguments
+    at all of its call sites), a closure capture (to the operand the closure was built with) and a field of a crate struct (to that
+    field's operand in every construction of the struct)."""
+    if seen is None:
+        seen = set()
+    c = op_const(op)
+    if c is not None:
+        return [c['def']] if c.get('k') == 'fn' else None
+    pl = op_place(op)
+    if pl is None or depth < 0:
+        return None
+    rp = resolve_place(fn, pl)
+    fields = [p_ for p_ in rp['p'] if isinstance(p_, dict) and 'f' in p_]
+    key = (fn.path, rp['l'], tuple(p_['f'] for p_ in fields))
+    if key in seen:
+        return []
+    seen.add(key)
+    out = []
+    if fields:
+        base_ty = fn.locals[rp['l']]['ty']
+        fidx = fields[-1]['f']
+        if fn.kind == 'Closure' and rp['l'] == 1 and len(fields) == 1:
+            parent = prog.by_path.get(fn.j.get('parent'))
+            if parent is None:
+                return None
+            found = False
+            for blk in parent.blocks:
+                for st in blk['stmts']:
+                    if st['k'] == 'assign' and st['rv']['k'] == 'aggregate' and st['rv'].get('agg') == 'closure' and short(st['rv'].get('def') or '') == short(fn.path):
+                        found = True
+                        ops = st['rv'].get('ops') or []
+                        if fidx >= len(ops):
+                            return None
+                        r = _fn_values(prog, parent, ops[fidx], depth - 1, seen)
+                        if r is None:
+                            return None
+                        out += r
+            return out if found else None
+        # field of a struct defined in the crate: every construction of the struct
+        sty = None
+        for pth, a in prog.adts.items():
+            if a['kind'] == 'Struct' and base_ty.lstrip('&').replace('mut ', '').startswith(pth) and len(fields) == 1:
+                sty = pth
+        if sty is None:
+            return None
+        found = False
+        for g in prog.fns:
+            for blk in g.blocks:
+                for st in blk['stmts']:
+                    if st['k'] == 'assign' and st['rv']['k'] == 'aggregate' and st['rv'].get('agg') == 'adt' and path_endswith(st['rv'].get('adt') or '', sty):
+                        found = True
+                        ops = st['rv'].get('ops') or []
+                        if fidx >= len(ops):
+                            return None
+                        r = _fn_values(prog, g, ops[fidx], depth - 1, seen)
+                        if r is None:
+                            return None
+                        out += r
+        return out if found else None
+    for (rb, idx, rv) in def_roots(fn, rp['l']):
+        if rb == 'arg':
+            # parameter of a crate-private function: the arguments at every call site; no fn-item use of the function itself
+            if fn.kind == 'Closure' or not str(fn.j.get('vis') or '').startswith('Restricted'):
+                return None
+            pos = idx - 1
+            me = short(fn.path)
+            ncall = 0
+            for g in prog.fns:
+                for blk in g.blocks:
+                    for st in blk['stmts']:
+                        if st['k'] == 'assign' and _mentions_fn(st['rv'], me):
+                            return None
+                for b, t in g.calls():
+                    if t['callee'].get('local') and short(t['callee']['def']) == me:
+                        ncall += 1
+                        if pos >= len(t['args']):
+                            return None
+                        r = _fn_values(prog, g, t['args'][pos], depth - 1, seen)
+                        if r is None:
+                            return None
+                        out += r
+            if not ncall:
+                return None
+            continue
+        if idx == 'term':
+            return None
+        if rv['k'] == 'cast' and 'ReifyFnPointer' in (rv.get('kind') or ''):
+            r = _fn_values(prog, fn, rv['op'], depth, seen)
+        elif rv['k'] == 'cast' and 'ClosureFnPointer' in (rv.get('kind') or ''):
+            # a non-capturing closure coerced to a function pointer: its body is a local function like any other
+            cpl = op_place(rv['op'])
+            cr = def_roots(fn, cpl['l']) if cpl is not None and is_local(cpl) else []
+            r = [x[2].get('def') for x in cr if x[1] != 'term' and x[0] != 'arg' and x[2].get('k') == 'aggregate' and x[2].get('agg') == 'closure']
+            if len(r) != len(cr) or not r:
+                r = None
+        elif rv['k'] == 'use':
+            r = _fn_values(prog, fn, rv['op'], depth, seen)
+        else:
+            return None
+        if r is None:
+            return None
+        out += r
+    return out
+
+
+def G_fnptr2(ctx, prog, lem, site):
+    """indirect call whose function operand can only hold function items (every source followed through parameters of crate-private
+    functions, closure captures and struct fields): the call runs one of those functions, whose bodies and panic leaves are
+    enumerated at the sites that reify them"""
+    fn = site['fn']
+    t = site['term']
+    if site['kind'] != 'indirect' or t.get('k') != 'call_indirect':
+        return None
+    vals = _fn_values(prog, fn, t['fn_operand'])
+    if vals:
+        names = sorted({short(v).split('::')[-1] for v in vals})
+        return 'the called pointer holds only function items (%d sources: %s), each enumerated where it is reified' % (len(vals), ', '.join(names[:6]) + (' ...' if len(names) > 6 else ''))
+    return None
+
+
 def G_cutoff(ctx, prog, lem, site):
     """&tokens[cutoff..] in the tokenizer loop: path enumeration of one loop iteration by abstract interpretation;
     on every path the constant cutoff is <= the number of tokens proven present (1 by the loop guard, 2/3 via Some(..) of get(1)/get(2))"""
@@ -868,4 +1003,4 @@ def G_cutoff(ctx, prog, lem, site):
     return 'all %d paths of one loop iteration slice at a constant cutoff <= the number of partial tokens proven present' % len(paths)
 
 
-GUARDS = [G_constarith, G_arity, G_tuplelen, G_nonempty, G_stackpop, G_afterpush, G_enough, G_discr, G_lensum, G_constinf, G_radix, G_fnptr, G_cutoff]
+GUARDS = [G_constarith, G_arity, G_tuplelen, G_nonempty, G_stackpop, G_afterpush, G_enough, G_discr, G_lensum, G_constinf, G_radix, G_fnptr, G_fnptr2, G_cutoff]
